@@ -45,6 +45,22 @@ class RefModel:
         self.F = self.V * self.R + self.O
         self._cache = {}
 
+    def flow_terms(self, i=None):
+        """The individual contributions of the DEFINITION to state i (all states when i is None): magnitude x rate of every transition that
+        touches the state, and the explicit terms - before any cancellation (an event with transitions D 3, B 2, B 1 on one state has net
+        effect 0 but leaves a float residue such as 2.8e-17*X*mu when its contributions are summed in floating point)."""
+        out = []
+        idx = {s_: k for k, s_ in enumerate(self.states)}
+        for j, ev in enumerate(self.spec.get("events") or []):
+            for tt, o, d, mag in ev["trans"]:
+                touched = [idx[o]] if tt == "D" else ([idx[d]] if tt == "B" else [idx[o], idx[d]])
+                if i is None or i in touched:
+                    out.append(self.parse(str(mag)) * self.R[j])
+        for s_, e in self.spec.get("odes") or []:
+            if i is None or idx[s_] == i:
+                out.extend(sympy.Add.make_args(self.parse(e)))
+        return out
+
     def parse(self, s):
         l = dict(self.loc)
         l.update(self.dsub)
